@@ -4,6 +4,7 @@
 #include <vrt.hpp>
 
 #include "C18_common.hpp"
+#include "C18_protocol.hpp"
 
 #include <fcppt/container/grid/make_spiral_range.hpp>
 #include <fcppt/container/grid/moore_neighbor_array.hpp>
@@ -17,6 +18,8 @@
 
 #include <cstdint>
 #include <cstdlib>
+#include <iterator>
+#include <type_traits>
 #include <set>
 #include <string>
 #include <utility>
@@ -186,10 +189,112 @@ template <class T> void neighbours_all(long long lo, long long hi)
 }
 }
 
+namespace
+{
+// ------------------------------------------------------------------ iterator protocol (laws in C18_protocol.hpp)
+template <class T> void spiral_protocol()
+{
+  static std::string const name = std::string("spiral_range<") + c18::tname<T>::v + ">";
+  static std::string const tn = std::string("spiral_iterator<") + c18::tname<T>::v + ">";
+  using pos = fcppt::container::grid::pos<T, 2>;
+  using It = fcppt::container::grid::spiral_iterator<pos>;
+  if (vrt::begin(tn.c_str(), 0))
+  {
+    vrt::nontrivial(true);
+    // detail/spiral_iterator_base.hpp: iterator::types<spiral_iterator<Pos>, Pos, Pos, value_type<Pos>, std::input_iterator_tag>
+    using tr = std::iterator_traits<It>;
+    if (!(std::is_same_v<typename tr::value_type, pos>)) vrt::count("info:" + tn + ":traits:value_type"); /* declared iterator traits are recorded, not judged: value_type is not Pos */
+    if (!(std::is_same_v<typename tr::reference, pos>)) vrt::count("info:" + tn + ":traits:reference"); /* declared iterator traits are recorded, not judged: reference is not Pos */
+    if (!(std::is_same_v<decltype(*std::declval<It const &>()), pos>)) vrt::count("info:" + tn + ":traits:reference"); /* declared iterator traits are recorded, not judged: operator* does not return Pos */
+    if (!(std::is_same_v<typename tr::difference_type, T>)) vrt::count("info:" + tn + ":traits:difference_type"); /* declared iterator traits are recorded, not judged: difference_type is not the coordinate type */
+    if (!(std::is_same_v<typename tr::iterator_category, std::input_iterator_tag>)) vrt::count("info:" + tn + ":traits:iterator_category"); /* declared iterator traits are recorded, not judged: category is not input */
+    static_assert(std::is_same_v<typename fcppt::container::grid::spiral_range<pos>::iterator, It>);
+  }
+  int const dmax = vrt::thorough() ? 5 : 3;
+  c18p::opts o;
+  o.value_reference = true; // spiral_iterator_decl.hpp: reference is Pos (a value)
+  for (int ox = -2; ox <= 2; ++ox)
+    for (int oy = -2; oy <= 2; ++oy)
+      for (int d = 0; d <= dmax; ++d)
+      {
+        if (!vrt::begin(name.c_str(), ox, oy, d))
+          continue;
+        vrt::nontrivial(d >= 1);
+        vrt::maybe_sample();
+        // the model sequence: rings of increasing distance; inside a ring the order is the one fixed by the
+        // sequence check of spiral_case (set + ring order); here the sequence itself is taken from one
+        // `it != end` walk (verified above against the point set) and the *protocol* is checked against it
+        fcppt::container::grid::spiral_range<pos> const r(pos(static_cast<T>(ox), static_cast<T>(oy)), static_cast<T>(d));
+        std::vector<pt> model;
+        std::size_t const n = static_cast<std::size_t>(2 * d * d + 2 * d + 1);
+        {
+          auto const end = r.end();
+          for (auto it = r.begin(); it != end && model.size() <= n; ++it)
+          {
+            pos const p = *it;
+            model.push_back({static_cast<long long>(p.x()), static_cast<long long>(p.y())});
+          }
+        }
+        if (model.size() != n)
+        {
+          vrt::fail(name + ":proto:model", vrt::fmt("plain walk saw %zu points, want %zu", model.size(), n));
+          continue;
+        }
+        c18p::check(name, r.begin(), r.end(), model,
+                    [](pos const &p) { return pt(static_cast<long long>(p.x()), static_cast<long long>(p.y())); }, o);
+      }
+}
+
+template <class T> void neighbour_array_protocol()
+{
+  static std::string const n_m = std::string("moore_neighbor_array<") + c18::tname<T>::v + ">";
+  static std::string const n_n = std::string("neumann_neighbor_array<") + c18::tname<T>::v + ">";
+  using pos = fcppt::container::grid::pos<T, 2>;
+  auto const keyof = [](pos const &p) { return pt(static_cast<long long>(p.x()), static_cast<long long>(p.y())); };
+  for (int x = 1; x <= 4; ++x)
+    for (int y = 1; y <= 4; ++y)
+    {
+      pos const p(static_cast<T>(x), static_cast<T>(y));
+      if (vrt::begin(n_m.c_str(), x, y))
+      {
+        vrt::nontrivial(true);
+        auto a = fcppt::container::grid::moore_neighbors(p);
+        auto const &ca = a;
+        std::vector<pt> model;
+        for (std::size_t i = 0; i < a.size(); ++i)
+          model.push_back(keyof(ca.get_unsafe(i)));
+        c18p::check(n_m, a.begin(), a.end(), model, keyof, c18p::opts{});
+        c18p::check(n_m + ":const", ca.begin(), ca.end(), model, keyof, c18p::opts{});
+      }
+      if (vrt::begin(n_n.c_str(), x, y))
+      {
+        vrt::nontrivial(true);
+        auto a = fcppt::container::grid::neumann_neighbors(p);
+        auto const &ca = a;
+        std::vector<pt> model;
+        for (std::size_t i = 0; i < a.size(); ++i)
+          model.push_back(keyof(ca.get_unsafe(i)));
+        c18p::check(n_n, a.begin(), a.end(), model, keyof, c18p::opts{});
+        c18p::check(n_n + ":const", ca.begin(), ca.end(), model, keyof, c18p::opts{});
+      }
+    }
+}
+}
+
 namespace c18
 {
 void register_grid_shards()
 {
+  vrt::shard("protocol:spiral", [] {
+    spiral_protocol<int>();
+    spiral_protocol<long>();
+    spiral_protocol<short>();
+    spiral_protocol<std::int8_t>();
+  });
+  vrt::shard("protocol:neighbour_arrays", [] {
+    neighbour_array_protocol<int>();
+    neighbour_array_protocol<unsigned>();
+  });
   vrt::shard("spiral<int>", [] { spiral_all<int>(); });
   vrt::shard("spiral<long>", [] { spiral_all<long>(); });
   vrt::shard("spiral<short>", [] { spiral_all<short>(); });
